@@ -281,6 +281,17 @@ def checkSnapshots (s : String) : Option String :=
     | [id, before, after] => if before == after then none else some s!"fails input-mutated obj={id} before={before} after={after}"
     | _ => some s!"fails snapshot-malformed {ent}") (s.splitOn ",")
 
+/-- `X=<asg>:<file>:<path>,…`: supplied descriptor protos whose memory a compilation result
+    shares (the resolver's object was linked in place instead of a defensive copy) -/
+def checkAliases (ws : List String) : Option String :=
+  match firstSome (parseKV "X=") ws with
+  | none => some "fails alias-observation-missing"
+  | some x =>
+    if x == "-" then none
+    else match ((x.splitOn ",").headD "").splitOn ":" with
+      | [asg, file, path] => some s!"fails input-aliased-by-result asg={asg} file={file} at={path}"
+      | _ => some s!"fails alias-observation-malformed {x}"
+
 /-- the property oracle of C09 / C10 on the implementation's answer -/
 def formsSpecWith (what : String) (ans : String) : String :=
   if ans.startsWith "relink-rejected" then "fails relink-rejected" else
@@ -295,7 +306,10 @@ def formsSpecWith (what : String) (ans : String) : String :=
       | none =>
         match checkSnapshots snaps with
         | some v => v
-        | none => if secs.isEmpty then "fails no-observations" else "holds"
+        | none =>
+          match checkAliases (words (beforeErr obs)) with
+          | some v => v
+          | none => if secs.isEmpty then "fails no-observations" else "holds"
     | none => "fails observations-malformed"
   | _ => "fails observations-missing"
 
